@@ -356,6 +356,14 @@ def _register_db_names():
 _C20 = _register_db_names()
 
 
+def _guarded(fn):
+    """an observation recorded in the evidence must not take the check down"""
+    try:
+        return fn()
+    except Exception as exc:  # noqa: BLE001
+        return f"raised {type(exc).__name__}: {exc}"
+
+
 def run(ctx):
     quick = ctx.tier == "quick"
     Perm = D.P()
@@ -385,10 +393,9 @@ def run(ctx):
     ctx.add_sample("C15.accept", ((Perm((0, 2, 1)), Perm((1, 0, 2))), L))
     # bases with an element of length 6 - the first length at which a permutation can fail to be a pin permutation
     # (56 of 720): such an element has no pin word at all, its automaton accepts nothing
-    from permuta.permutils.pin_words import PinWords as _PW
-    with_pins = set(_PW.pinword_to_perm_mapping(6).values())
+    from specs import pins as _pins
     p6 = D.perms(6)
-    nonpin6 = [p for p in p6 if p not in with_pins]
+    nonpin6 = [Perm(t) for t in _pins.nonpin_perms(6)]  # by the spec's own enumerator / decoder, not by the library
     six = []
     for j in range(8 if quick else 48):
         big = rng.choice(nonpin6) if j % 4 else rng.choice(p6)
@@ -412,7 +419,7 @@ def run(ctx):
                  f"store/load/use_db in a fresh temporary directory; exact equivalence + all direction words up to length {dbl}")
     ctx.exhaustive = False
     ctx.notes["C15.short_words"] = {
-        "observed": _short_word_behaviour(),
+        "observed": _guarded(_short_word_behaviour),
         "comment": "words of M of length 0 and 1 place no pin; the automaton accepts them exactly when the empty "
                    "permutation is in the basis (consistent with reading them as the empty permutation). The statement "
                    "does not fix this, so nothing is asserted.",
